@@ -691,6 +691,7 @@ func (x *ctx) mapV(ks, vs srtT) string      { return "ghost_mapV_" + symName(ks.
 func (x *ctx) mapLen(st *state, m term) term {
 	n := x.ghostGet(st, "ghost_mapN", []srtT{sRef}, sInt, []term{m})
 	st.define(x.binop(token.GEQ, n, mkbv(0, 64), types.Typ[types.Int]).s)
+	st.define(implies(eq(m, null), eq(n, mkbv(0, 64)))) // a nil map is empty
 	return n
 }
 
@@ -712,6 +713,7 @@ func (x *ctx) makeMap(st *state, in *ssa.MakeMap) val {
 	st.define(fmt.Sprintf("(= %s (store %s %s ((as const (Array %s Bool)) false)))", n, cur, r.s, ks.name))
 	st.heap[key] = n
 	x.ghostWrite(st, "ghost_mapN", []term{r}, mkbv(0, 64))
+	x.typeTag(st, r, in.Type())
 	return scalar(r)
 }
 
